@@ -50,9 +50,10 @@ structure ThOK (i : Nat) (sh : Sh) (th : Th) (a : Abs) : Prop where
   hW : a.hW = true ↔ sh.w = some i
   hR : a.hR = true ↔ i ∈ sh.r
   lkHeld : a.lk = true → a.hR = true ∨ a.hW = true
-  wlw : a.hW = true → sh.wl = a.wl ∧ sh.wp = a.wp
+  wlw : a.hW = true → sh.wl = a.wl ∧ sh.wp = a.wp ∧ sh.wc = a.wc
   wlH : a.wl = true → a.hW = true
   wpH : a.wp = true → a.hW = true
+  wcH : a.wc = true → a.hW = true
   nofault : th.fault = false
   mread : a.mread = true → th.mv = true
   lv : a.lv = true → th.lockv = true
@@ -65,11 +66,11 @@ structure Glob (s : State) : Prop where
   norace : s.sh.race = false
   noerr : s.sh.t ≠ .err
   excl : ∀ i, s.sh.w = some i → s.sh.r = []
-  wfree : s.sh.w = none → s.sh.wl = false ∧ s.sh.wp = false
+  wfree : s.sh.w = none → s.sh.wl = false ∧ s.sh.wp = false ∧ s.sh.wc = false
   gRaw : s.sh.t = .raw → s.sh.tg = 0 ∧ s.sh.l = (if s.sh.wl then 1 else 0) ∧ s.sh.p = (if s.sh.wp then 1 else 0)
   gParsed : s.sh.t = .parsed → s.sh.tg = 1 ∧ s.sh.l = 1 ∧ s.sh.p = 1
   hbT : s.sh.t ≠ .raw → AllWritesIn s.sh.hist s.sh.relT
-  wrBy : s.sh.t = .raw → ∀ a ∈ s.sh.hist, a.wr = true → s.sh.w = some a.tid ∧ (s.sh.wl = true ∨ s.sh.wp = true)
+  wrBy : s.sh.t = .raw → ∀ a ∈ s.sh.hist, a.wr = true → s.sh.w = some a.tid ∧ (s.sh.wl = true ∨ s.sh.wp = true ∨ s.sh.wc = true)
   wrAtomicT : ∀ a ∈ s.sh.hist, a.wr = true → a.f = .t → a.atomic = true
   wrNotM : ∀ a ∈ s.sh.hist, a.wr = true → a.f ≠ .m
   atomicT : ∀ a ∈ s.sh.hist, a.atomic = true → a.f = .t
@@ -91,13 +92,13 @@ def Inv (pf : Bool) (s : State) : Prop := Glob s ∧ ThsOK pf s
     happens-before set and changed registers other than `tv` -/
 theorem ThOK.read_step {j : Nat} {sh sh' : Sh} {th th' : Th} {a : Abs} {acc : Acc}
     (h : ThOK j sh th a) (hacc : acc.wr = false)
-    (hw : sh'.w = sh.w) (hr : sh'.r = sh.r) (hwl : sh'.wl = sh.wl) (hwp : sh'.wp = sh.wp)
+    (hw : sh'.w = sh.w) (hr : sh'.r = sh.r) (hwl : sh'.wl = sh.wl) (hwp : sh'.wp = sh.wp) (hwc : sh'.wc = sh.wc)
     (ht : sh'.t = sh.t) (htg : sh'.tg = sh.tg) (hh : sh'.hist = acc :: sh.hist)
     (htv : th'.tv = th.tv) (hhb : ∀ x ∈ th.hb, x ∈ th'.hb) (hf : th'.fault = th.fault)
     (hmv : a.mread = true → th'.mv = true) (hlv : th'.lockv = th.lockv) (hview : th'.viewOK = true) :
     ThOK j sh' th' a := by
   refine { hW := (by rw [hw]; exact h.hW), hR := (by rw [hr]; exact h.hR), lkHeld := h.lkHeld,
-           wlw := (by rw [hwl, hwp]; exact h.wlw), wlH := h.wlH, wpH := h.wpH,
+           wlw := (by rw [hwl, hwp, hwc]; exact h.wlw), wlH := h.wlH, wpH := h.wpH, wcH := h.wcH,
            nofault := (by rw [hf]; exact h.nofault), mread := hmv, tvok := (by rw [htv]; exact h.tvok),
            lv := (by rw [hlv]; exact h.lv), know := ?_, view := hview }
   have hk := h.know
@@ -124,18 +125,18 @@ theorem ThOK.read_step {j : Nat} {sh sh' : Sh} {th th' : Th} {a : Abs} {acc : Ac
 
 theorem ThOK.frame_read {j : Nat} {sh sh' : Sh} {th : Th} {a : Abs} {acc : Acc}
     (h : ThOK j sh th a) (hacc : acc.wr = false)
-    (hw : sh'.w = sh.w) (hr : sh'.r = sh.r) (hwl : sh'.wl = sh.wl) (hwp : sh'.wp = sh.wp)
+    (hw : sh'.w = sh.w) (hr : sh'.r = sh.r) (hwl : sh'.wl = sh.wl) (hwp : sh'.wp = sh.wp) (hwc : sh'.wc = sh.wc)
     (ht : sh'.t = sh.t) (htg : sh'.tg = sh.tg) (hh : sh'.hist = acc :: sh.hist) : ThOK j sh' th a :=
-  h.read_step hacc hw hr hwl hwp ht htg hh rfl (fun _ hx => hx) rfl h.mread rfl h.view
+  h.read_step hacc hw hr hwl hwp hwc ht htg hh rfl (fun _ hx => hx) rfl h.mread rfl h.view
 
 /-- F2: only the mutex state / the release sets change, and not for `j` -/
 theorem ThOK.frame_lock {j : Nat} {sh sh' : Sh} {th : Th} {a : Abs}
     (h : ThOK j sh th a)
     (hw : sh'.w = some j ↔ sh.w = some j) (hr : j ∈ sh'.r ↔ j ∈ sh.r)
-    (hwl : sh'.wl = sh.wl) (hwp : sh'.wp = sh.wp)
+    (hwl : sh'.wl = sh.wl) (hwp : sh'.wp = sh.wp) (hwc : sh'.wc = sh.wc)
     (ht : sh'.t = sh.t) (htg : sh'.tg = sh.tg) (hh : sh'.hist = sh.hist) : ThOK j sh' th a := by
   refine { h with hW := (by rw [hw]; exact h.hW), hR := (by rw [hr]; exact h.hR),
-                  wlw := (by rw [hwl, hwp]; exact h.wlw), know := ?_ }
+                  wlw := (by rw [hwl, hwp, hwc]; exact h.wlw), know := ?_ }
   have hk := h.know
   unfold KnowOK RawFacts NonRawFacts at hk ⊢
   rw [ht, htg, hh]
